@@ -287,6 +287,8 @@ LateStart(tag, j) ==
     /\ phase = "late" /\ runs[tag].st = "done"
     /\ j \in 1..Len(runs[tag].keeps) /\ LateTag(tag, j) \notin DOMAIN runs
     /\ Sched = "det" => AllRunsDone
+    \* bound of the model: at most two runs are active when a kept continuation is started
+    /\ Cardinality({t \in DOMAIN runs : runs[t].st # "done"}) < 2
     /\ LET K == runs[tag].keeps[j]
        IN runs' = [t \in DOMAIN runs \cup {LateTag(tag, j)} |->
                      IF t = LateTag(tag, j)
